@@ -634,6 +634,9 @@ impl fmt::Display for Exp {
             Exp::Number(value) => crate::utils::number_to_source(*value),
             Exp::Variable(name) => name.clone(),
             Exp::Abs(exp) => format!("abs{{ {} }}", exp),
+            //an aggregation over nothing is its neutral element (joining no operands would print nothing at all)
+            Exp::And(exps) if exps.is_empty() => "true".to_string(),
+            Exp::Or(exps) if exps.is_empty() => "false".to_string(),
             Exp::And(exps) => exps
                 .iter()
                 .map(logic_operand_to_string)
